@@ -410,7 +410,7 @@ class StringMagic:
     def PADLEFT(self, args):
         original_string = args[0]
         try:
-            width = int(args[1])
+            width = min(int(args[1]), 500)  # MediaWiki limits the padded length to 500
         except ValueError:
             return original_string
 
@@ -428,7 +428,7 @@ class StringMagic:
     def PADRIGHT(self, args):
         original_string = args[0]
         try:
-            width = int(args[1])
+            width = min(int(args[1]), 500)  # MediaWiki limits the padded length to 500
         except ValueError:
             return original_string
 
@@ -583,7 +583,12 @@ class MagicResolver(
         if isinstance(method_to_invoke, str):
             return method_to_invoke
 
-        res = method_to_invoke(args) or ""  # FIXME: catch TypeErros
+        try:
+            res = method_to_invoke(args)
+        except TypeError:
+            # words whose resolver takes no argument (REVISIONID, NUMBEROF*, the dummy resolvers)
+            res = method_to_invoke()
+        res = res or ""
         if not isinstance(res, str):
             raise TypeError(f"MAGIC {name!r} returned {res!r}")
         return res
@@ -675,7 +680,7 @@ def _populate_dummy():
     magic_resolver = MagicResolver()
 
     def get_dummy(name):
-        def resolve():
+        def resolve(*args):  # installed as a method: receives self and the argument list
             log.warn(f"using dummy resolver for {name}")
             return ""
 
